@@ -80,8 +80,10 @@ class Gen12:
     with probability > 1/2), if/else, one-armed if, counter `while` with loop-carried variables, `for` over
     ranges and lists; expressions: rounded constants, + - * / fma sqrt abs neg, min/max, conditional
     expressions, fixed-size lists with sum/index/len, tuples."""
-    def __init__(self, R, raw_ints: bool, loopfree: bool = False):
-        self.R = R; self.raw = raw_ints; self.loopfree = loopfree
+    def __init__(self, R, raw_ints: bool, loopfree: bool = False, subset: bool = False):
+        """subset: only the constructs of the Lean compiler model with loops (Model/FPCoreLoops.lean): one order comparison as
+        condition, `for … in range(fp.round(n))`, no lists, no min/max, no conditional expressions"""
+        self.R = R; self.raw = raw_ints; self.loopfree = loopfree; self.subset = subset
         self.fresh = itertools.count()
         self.marks = {}        # Fraction constant -> expected context key | None
         self.nmark = itertools.count(1)
@@ -110,8 +112,8 @@ class Gen12:
         ls = [x for x, t in env.items() if isinstance(t, tuple)]
         ch = ['var'] * 5 + ['const'] * 2
         if d > 0:
-            ch += ['bin'] * 6 + ['fma', 'sqrt', 'abs', 'neg'] + ([] if self.loopfree else ['minmax', 'ite'])
-            if ls and not self.loopfree: ch += ['index', 'sum', 'len']
+            ch += ['bin'] * 6 + ['fma', 'sqrt', 'abs', 'neg'] + ([] if self.loopfree or self.subset else ['minmax', 'ite'])
+            if ls and not self.loopfree and not self.subset: ch += ['index', 'sum', 'len']
         c = R.choice(ch)
         self.count('expr:' + c)
         if c == 'var' and vs: return R.choice(vs)
@@ -134,6 +136,7 @@ class Gen12:
 
     def cond(self, env, d):
         R = self.R
+        if self.subset: return f'{self.real(env, d)} {R.choice(["<", "<=", ">", ">="])} {self.real(env, d)}'
         c = R.choice(['cmp'] * 5 + (['and', 'or', 'not', 'isnan'] if d > 0 else []))
         if c == 'cmp': return f'{self.real(env, d)} {R.choice(["<", "<=", ">", ">=", "==", "!="])} {self.real(env, d)}'
         if c == 'not': return f'(not {self.cond(env, d - 1)})'
@@ -154,7 +157,7 @@ class Gen12:
         env = dict(env); out = []
         for _ in range(n):
             ks = ['assign'] * 3 + ['new'] * 3
-            if depth > 0: ks += ['with'] * 5 + ([] if self.loopfree else ['if', 'if', 'if1', 'while', 'forrange', 'tuple', 'list'])
+            if depth > 0: ks += ['with'] * 5 + ([] if self.loopfree else ['if', 'if', 'if1', 'while', 'forrange', 'tuple'] + ([] if self.subset else ['list']))
             if depth > 0 and not self.loopfree and any(isinstance(t, tuple) for t in env.values()): ks += ['forlist']
             k = R.choice(ks)
             vs = [x for x, t in env.items() if t == 'R']
@@ -204,7 +207,8 @@ class Gen12:
                 env2 = dict(env); env2[ix] = 'RO'
                 body, _ = self.block(env2, depth - 1, R.randint(1, 2), pad + '    ')
                 r = R.random()
-                if r < 0.5: rng = f'range({self.lit(R.randint(0, 3))})'
+                if self.subset: rng = f'range(fp.round({R.randint(0, 3)}))'
+                elif r < 0.5: rng = f'range({self.lit(R.randint(0, 3))})'
                 elif r < 0.75: rng = f'range({self.lit(R.randint(0, 2))}, {self.lit(R.randint(2, 4))})'
                 else: rng = f'range({self.lit(R.randint(0, 1))}, {self.lit(R.randint(3, 7))}, {self.lit(R.randint(2, 3))})'
                 self.count('range:' + str(rng.count(',') + 1))
@@ -223,7 +227,7 @@ class Gen12:
         if R.random() < 0.15:
             decl = self.new_ctx(); self.stack.append(decl)
         env = {'a': 'R', 'b': 'R'}
-        has_list = R.random() < 0.4 and not self.loopfree
+        has_list = R.random() < 0.4 and not self.loopfree and not self.subset
         if has_list: env['xs'] = ('L', 3)
         inner_ret = R.random() < 0.5      # the `return` inside the outermost `with`, or after it
         lines = []
@@ -361,9 +365,62 @@ def t_sum_index(a: fp.Real, b: fp.Real, xs: list[fp.Real]):
 ''', {}),
 ]
 
-# a shape that is NOT repaired (kept under a finding tag): the loop target reassigned in the body is compiled as a
-# loop-carried variable whose initial value is the (unbound) target itself
-KNOWN_SHAPES = {'t_loop_target_reassigned': 'C12-looptarget'}
+# shapes that are NOT repaired (kept under a finding tag, known_findings.json): recognised on the source AST
+def _ast_children(n):
+    for cls in type(n).__mro__:
+        for k in getattr(cls, '__slots__', ()):
+            try: v = getattr(n, k)
+            except AttributeError: continue
+            if isinstance(v, (list, tuple)): yield from v
+            else: yield v
+
+def _ast_walk(n):
+    from fpy2.ast import fpyast as A
+    yield n
+    for v in _ast_children(n):
+        if isinstance(v, A.Ast): yield from _ast_walk(v)
+
+def shape_findings(fn) -> set:
+    """C12-looptarget: a `for` whose body assigns its target; C12-looptarget2: a `for` whose target is defined before the loop and
+    read after it; C12-negrange: a `range` with a bound that is not a literal (fails when it is negative at run time);
+    C12-readwhilecond: a `while` whose condition contains a conditional expression (the reader evaluates it once)"""
+    from fpy2.ast import fpyast as A
+    out = set()
+    nodes = list(_ast_walk(fn.ast.body))
+    pos = {id(n): i for i, n in enumerate(nodes)}
+    def assigned(block):
+        acc = set()
+        for n in _ast_walk(block):
+            if isinstance(n, A.Assign):
+                acc |= {str(n.target)} if isinstance(n.target, A.NamedId) else ({str(x) for x in n.target.names()} if isinstance(n.target, A.TupleBinding) else set())
+            elif isinstance(n, A.ForStmt) and isinstance(n.target, A.NamedId): acc.add(str(n.target))
+        return acc
+    def literal(e):
+        if isinstance(e, A.Round) and len(getattr(e, 'args', ())) == 1: e = e.args[0]
+        return isinstance(e, A.RationalVal)
+    params = {str(a.name) for a in fn.ast.args}
+    for n in nodes:
+        if isinstance(n, A.ForStmt) and isinstance(n.target, A.NamedId):
+            x = str(n.target)
+            if x in assigned(n.body): out.add('C12-looptarget')
+            last = max(pos[id(m)] for m in _ast_walk(n))
+            before = x in params or any(isinstance(m, (A.Assign, A.ForStmt)) and m is not n and pos[id(m)] < pos[id(n)]
+                                        and x in assigned(A.StmtBlock([m])) for m in nodes)
+            after = any(isinstance(m, A.Var) and str(m.name) == x and pos[id(m)] > last for m in nodes)
+            if before and after: out.add('C12-looptarget2')
+            if isinstance(n.iterable, (A.Range1, A.Range2, A.Range3)) and not all(literal(a) for a in n.iterable.args): out.add('C12-negrange')
+        if isinstance(n, A.WhileStmt) and any(isinstance(m, A.IfExpr) for m in _ast_walk(n.cond)): out.add('C12-readwhilecond')
+    return out
+
+def pick_finding(shapes, kind, observed=None):
+    """the finding a violation of this kind ('eval': the core evaluates differently; 'reread': the re-read function does) on a program
+    of these shapes is recorded under, or None"""
+    if 'C12-looptarget' in shapes: return 'C12-looptarget'
+    if 'C12-looptarget2' in shapes: return 'C12-looptarget2'
+    if kind == 'reread' and 'C12-readwhilecond' in shapes: return 'C12-readwhilecond'
+    if 'C12-negrange' in shapes and observed is not None and not observed.startswith('ok'): return 'C12-negrange'
+    return None
+
 TEMPLATES.append(('''@fp.fpy
 def t_loop_target_reassigned(a: fp.Real, b: fp.Real):
     with fp.FP64:
@@ -432,8 +489,8 @@ def timed(thunk, seconds=5):
     try: return thunk()
     finally: signal.alarm(0); signal.signal(signal.SIGALRM, old)
 
-def observe(thunk) -> str:
-    try: return 'ok ' + canon(timed(thunk))
+def observe(thunk, seconds=5) -> str:
+    try: return 'ok ' + canon(timed(thunk, seconds))
     except Timeout: return 'timeout'
     except Unsupported as e: return f'unsupported {e}'
     except Exception as e: return f'err {type(e).__name__}: {str(e)[:120]}'
@@ -624,6 +681,11 @@ def run(rep, tier, seed):
     lang_lines, lang_meta = [], []        # eval lines (re-read function on the Lean core-language evaluator)
     model_lines, model_meta = [], []      # fpcmodel lines (MODEL of the compiler + Lean FPCore evaluator vs the real function)
     rep.cov['model_compiler_programs'] = 0
+    read_lines, read_meta = [], []        # fpcread lines (MODEL of the reader, proved sound in Props/C12.lean, vs the real re-read function)
+    rep.cov.update({'reader_model_evaluations': 0, 'reader_model_in_subset': 0})
+    tie_lines, tie_meta = [], []          # fpccompile lines (TEXT of the model compiler with loops vs the real compiler's core)
+    rep.cov.update({'model_subset_programs': 0, 'model_subset_by_kind': {}, 'compile_text_compared': 0, 'compile_text_match': 0,
+                    'compile_text_order_ambiguous': 0, 'compile_text_reject_agree': 0})
     try:
         progs = []     # (label, source, fn, marks, has_list, raw_ints, declared ctx object)
         tpath = os.path.join(tmp, 'templates.py')
@@ -644,8 +706,8 @@ def run(rep, tier, seed):
             progs.append(('bundle:' + name, src, fn, {}, False, False, fn.ast.ctx, fixed))
         rep.cov['bundling_corpus_programs'] = len(bundles)
         for pi in range(nprog):
-            loopfree = pi % 3 == 0
-            G = Gen12(R, raw_ints=(R.random() < 0.5 and not loopfree), loopfree=loopfree)
+            loopfree = pi % 3 == 0; subset = pi % 3 == 1
+            G = Gen12(R, raw_ints=(R.random() < 0.5 and not loopfree and not subset), loopfree=loopfree, subset=subset)
             src, has_list, decl = G.function(f'g{pi}')
             path = os.path.join(tmp, f'g{pi}.py')
             with open(path, 'w') as fh: fh.write('import fpy2 as fp\n\n' + src)
@@ -671,11 +733,15 @@ def run(rep, tier, seed):
             except Exception as e:
                 rep.cov['rejected'] += 1
                 rep.count('rejected:' + type(e).__name__ + ':' + str(e.args[0] if e.args else '')[:50])
+                tie_add(rep, tie_lines, tie_meta, label, src, fn, None, True)
                 continue
             rep.cov['compiled'] += 1
             rep.count('compiled:unsafe_int_cast=' + str(unsafe))
             text = core.sexp
-            base = {'program': label, 'source': src, 'core': text, 'unsafe_int_cast': unsafe, 'finding': KNOWN_SHAPES.get(label.split(':')[-1])}
+            try: shapes = shape_findings(fn)
+            except Exception as e:
+                shapes = set(); rep.count('shape-classifier-error:' + type(e).__name__)
+            base = {'program': label, 'source': src, 'core': text, 'unsafe_int_cast': unsafe, 'finding': None, 'shapes': sorted(shapes)}
             # ---- (c) annotation scope
             found = marks_in_core(core, marks)
             dkey = None
@@ -699,14 +765,14 @@ def run(rep, tier, seed):
                 rep.cov['reread_in_memory'] += 1
             except Exception as e:
                 rep.violation(f're-read: Function.from_fpcore(compile(f)) raises {type(e).__name__}: {str(e)[:100]}',
-                              dict(base, args=None, fpy=None, fpcore=None, error=traceback.format_exc()[-600:]))
+                              dict(base, args=None, fpy=None, fpcore=None, error=traceback.format_exc()[-600:], finding=pick_finding(shapes, 'reread')))
             if not has_list:      # (titanfp prints a tensor argument `(xs 3)` as `(xs3)`: not re-parseable, third-party)
                 try:
                     reread['text'] = timed(lambda: Function.from_fpcore(fpcparser.compile(text)[0], ignore_unknown=True), 20)
                     rep.cov['reread_text'] += 1
                 except Exception as e:
                     rep.violation(f're-read of the printed core raises {type(e).__name__}: {str(e)[:100]}',
-                                  dict(base, args=None, fpy=None, fpcore=None, error=traceback.format_exc()[-600:]))
+                                  dict(base, args=None, fpy=None, fpcore=None, error=traceback.format_exc()[-600:], finding=pick_finding(shapes, 'reread')))
             exported = None
             if 'memory' in reread:
                 try: exported = export_program(reread['memory'])
@@ -718,6 +784,7 @@ def run(rep, tier, seed):
                 mprog = None
             except Exception as e:
                 mprog = None; rep.count('model-export-error:' + type(e).__name__)
+            tie_add(rep, tie_lines, tie_meta, label, src, fn, core, unsafe)
             try: core_line_ok = bool(core_expr(core.e)) and bool(props_sexp(core.props))
             except Unsupported as e:
                 core_line_ok = False; rep.count('lean-fpcore-unsupported:' + str(e)[:40])
@@ -738,11 +805,14 @@ def run(rep, tier, seed):
                 else:
                     judge(rep, base, args, F, T, None)
                 for how, g in reread.items():
-                    Gv = observe(lambda: g(*[list(a) if isinstance(a, list) else a for a in args]))
+                    if 'C12-readwhilecond' in shapes and (how != 'memory' or args is not arglist[0]): continue     # (a re-read loop that never ends: once)
+                    Gv = observe(lambda: g(*[list(a) if isinstance(a, list) else a for a in args]), 2 if 'C12-readwhilecond' in shapes else 5)
                     rep.cov['evaluations'] += 1
                     if Gv != F:
                         rep.violation(f're-read ({how}): compile + Function.from_fpcore changes the result: f(*args) = {F[:70]}, re-read = {Gv[:70]}',
-                                      dict(base, args=repr(args), fpy=F, fpcore=T, reread=Gv, reread_source=g.format()))
+                                      dict(base, args=repr(args), fpy=F, fpcore=T, reread=Gv, reread_source=g.format(), finding=pick_finding(shapes, 'reread', Gv)))
+                    if how == 'memory' and core_line_ok and Gv.startswith('ok'):
+                        read_lines.append('fpcread' + fpceval_line(core, args)[len('fpceval'):]); read_meta.append((label, text, args, Gv))
                     if how == 'memory' and exported is not None and Gv.startswith('ok'):
                         entry, prog = exported
                         try:
@@ -770,6 +840,8 @@ def run(rep, tier, seed):
                 rep.cov['titanfp_evaluations'] += 1; rep.cov['evaluations'] += 1
                 rep.distinct.add((text, repr(args)))
                 lean_lines.append(fpceval_line(core, args)); lean_meta.append((dict(base, reader=True, reread_source=g.format()), args, Gv, T))
+                if Gv.startswith('ok'):
+                    read_lines.append('fpcread' + fpceval_line(core, args)[len('fpceval'):]); read_meta.append(('read:' + text, text, args, Gv))
 
         # ---- Lean FPCore evaluator on every core (second FPCore semantics + correspondence of the model with titanfp)
         outs = run_driver(lean_lines)
@@ -785,6 +857,19 @@ def run(rep, tier, seed):
             if m == 'reject': rep.count('model-compiler:reject'); continue
             if m != F:
                 rep.broke('correspondence', 'C12.compile-model', f'program={label}\n{src}\nargs={args!r}\nimpl f(*args)={F}\nmodel compile+eval={m}')
+        # ---- the MODEL of the reader (readFun + the Lean core-language evaluator) against the real re-read function
+        outs = run_driver(read_lines)
+        rep.cov['reader_model_evaluations'] = len(read_lines)
+        for (label, text, args, Gv), m in zip(read_meta, outs):
+            if m == 'reject': rep.count('reader-model:outside-subset'); continue
+            if m.startswith(('bad-', 'err outOfFuel')): rep.count('reader-model:' + m[:20]); continue
+            rep.cov['reader_model_in_subset'] += 1
+            mm = m.replace('(l ', '(t ').replace('(l)', '(t )')
+            if mm != Gv.replace('(t)', '(t )'):
+                rep.broke('correspondence', 'C12.read-model', f'program={label}\ncore={text}\nargs={args!r}\nimpl Function.from_fpcore(core)(*args)={Gv}\nmodel readFun + eval={m}')
+        # ---- the model compiler WITH loops (compileFunL, proved sound in Props/C12.lean): its output TEXT against the real compiler's
+        outs = run_driver(tie_lines)
+        tie_judge(rep, tie_meta, outs)
         # ---- Lean core-language evaluator on the re-read functions (correspondence)
         outs = run_driver(lang_lines)
         rep.cov['traces_model_vs_impl'] = len(lang_lines)
@@ -809,9 +894,67 @@ def run(rep, tier, seed):
                         'arguments are rounded to the declared context of a function before both runs (titanfp rounds arguments to the core\'s own properties, FPy does not)',
                         'the scope check reads property names by the FPCore 2.0 standard (binary32 = (float 8 32), …), not through fpy2.fpc_context']
 
+def tie_add(rep, tie_lines, tie_meta, label, src, fn, core, unsafe):
+    """queue the `fpccompile` lines of a program of the modelled subset (one per order of the bundled sets)"""
+    import c12tie
+    from langexport import Exporter
+    try:
+        ex = Exporter(); ex.env = fn.ast.env
+        prog, keys, dup = c12tie.export_lprogram(fn, desc_tok, ex.static_py)
+    except Unsupported as e:
+        rep.count('tie:outside-subset:' + str(e)[:40]); return
+    except Exception as e:
+        rep.count('tie:export-error:' + type(e).__name__); return
+    kind = label.split(':')[0]
+    rep.cov['model_subset_programs'] += 1
+    rep.cov['model_subset_by_kind'][kind] = rep.cov['model_subset_by_kind'].get(kind, 0) + 1
+    tables = c12tie.perm_tables(keys)
+    if tables is None:
+        rep.count('tie:too-many-orders'); return
+    real = None
+    if core is not None:
+        try: real = c12tie.canon_core(props_sexp(core.props), core_expr(core.e))
+        except Unsupported as e:
+            rep.count('tie:core-unsupported:' + str(e)[:30]); return
+    first = len(tie_lines)
+    for t in tables: tie_lines.append(f'fpccompile {1 if unsafe else 0} {t} {prog}')
+    tie_meta.append((label, src, real, first, len(tables), unsafe, dup))
+
+def tie_judge(rep, tie_meta, outs):
+    import c12tie
+    for label, src, real, first, n, unsafe, dup in tie_meta:
+        res = outs[first:first + n]
+        rep.cov['compile_text_compared'] += 1
+        if any(r.startswith('bad-') for r in res):
+            rep.broke('correspondence', 'C12.compile-text', f'program={label}\n{src}\nthe driver cannot read the exported program: {res[0][:200]}'); continue
+        if real is None:      # the real compiler rejects (with and without unsafe_int_cast): so must the model
+            if all(r == 'reject' for r in res): rep.cov['compile_text_reject_agree'] += 1
+            else: rep.broke('correspondence', 'C12.compile-text', f'program={label}\n{src}\nthe real compiler rejects the program, the model compiles it:\n{res[0][:600]}')
+            continue
+        texts = []
+        for r in res:
+            if not r.startswith('ok '): texts.append(None); continue
+            rest = r[3:]; depth = 0; cut = 0
+            for i, ch in enumerate(rest):
+                if ch == '(': depth += 1
+                elif ch == ')':
+                    depth -= 1
+                    if depth == 0: cut = i + 1; break
+            try: texts.append(c12tie.canon_core(rest[:cut], rest[cut:].strip()))
+            except Exception as e: texts.append(f'?{type(e).__name__}')
+        if real in texts:
+            rep.cov['compile_text_match'] += 1
+            if n > 1: rep.cov['compile_text_order_ambiguous'] += 1
+        elif dup and all(t is not None for t in texts):
+            rep.count('tie:two-sites-with-the-same-key')      # same kind, same body size, same set: the model cannot tell them apart
+        else:
+            shown = next((t for t in texts if t), res[0])
+            rep.broke('correspondence', 'C12.compile-text', f'program={label} unsafe_int_cast={unsafe}\n{src}\nreal  (alpha-normal): {real[:1500]}\nmodel (alpha-normal, {n} orders tried): {str(shown)[:1500]}')
+
 def judge(rep, base, args, F, T, L):
     """F: FPy (or, for hand-written cores, the re-read function); T: titanfp on the core; L: Lean FPCore evaluator on the core (or None)"""
     what = 'reader: Function.from_fpcore(core)(*args)' if base.get('reader') else 'f(*args)'
+    shapes = set(base.get('shapes') or ())
     tv = T if T.startswith('ok') else None
     rep.count('titanfp:' + ('ok' if tv else T.split(':')[0][:40]))
     if L is not None:
@@ -827,7 +970,7 @@ def judge(rep, base, args, F, T, L):
     if tv is None:
         if L == F: rep.count('agree'); return
         rep.violation(f'{what} = {F[:70]} but the core evaluates to {L[:70]} (Lean FPCore evaluator; titanfp: {T[:50]})',
-                      dict(base, args=repr(args), fpy=F, fpcore=T, lean_fpcore=L)); return
+                      dict(base, args=repr(args), fpy=F, fpcore=T, lean_fpcore=L, finding=pick_finding(shapes, 'eval', L))); return
     # titanfp differs from F
     if L is not None and L == F:
         cls = 'reference-evaluator-deviation'
@@ -836,7 +979,7 @@ def judge(rep, base, args, F, T, L):
         if len(devs) < 8: devs.append({'core': base['core'], 'args': repr(args), 'fpy': F, 'lean_fpcore': L, 'titanfp': T})
         return
     rep.violation(f'{what} = {F[:70]} but the core evaluates to {T[:70]} (titanfp)' + ('' if L is None else f' / {L[:70]} (Lean FPCore evaluator)'),
-                  dict(base, args=repr(args), fpy=F, fpcore=T, lean_fpcore=L))
+                  dict(base, args=repr(args), fpy=F, fpcore=T, lean_fpcore=L, finding=pick_finding(shapes, 'eval', T)))
 
 # ------------------------------------------------------------------ (d) the property table
 def table_check(rep):
